@@ -23,9 +23,11 @@ pub open spec fn rfc3339_head(p: Parts) -> Seq<u8> {
         digit(p.minutes as int, 10), digit(p.minutes as int, 1), 0x3au8,
         digit(p.seconds as int, 10), digit(p.seconds as int, 1)]
 }
+// the i-th most significant ASCII digit of `v` written with `w` digits (zero padded)
+pub open spec fn dig_at(v: int, w: int, i: int) -> u8 { digit(v, pow10((w - 1 - i) as nat) as int) }
 // the first k digits of the 9-digit zero-padded nanosecond count
 pub open spec fn rfc3339_frac(nanos: int, k: int) -> Seq<u8> {
-    Seq::new(k as nat, |j: int| digit(nanos, pow10((8 - j) as nat) as int))
+    Seq::new(k as nat, |j: int| dig_at(nanos, 9, j))
 }
 pub open spec fn rfc3339_text(p: Parts, k: int) -> Seq<u8> {
     if k == 0 { rfc3339_head(p).push(0x5au8) }
